@@ -434,12 +434,32 @@ def admin (input implOut : Json) : Option (Json × Bool) := do
       let keyNorm (b : Bytes) : Option Bytes := match table.find? (·.1 == b) with
         | some (_, r) => r
         | none => some b
-      some (finish (Admin.doGetPubkeys o keyNorm w) fun ks => [("pubkeys", .arr (ks.map Json.ofBytes))])
+      let r := Admin.doGetPubkeys o keyNorm w
+      let paths := Spec.C18.docPathStrs
+      let files : Json := match r.w.pubkeyFiles with
+        | none => .obj [("txt", .str "intact"), ("json", .str "intact")]
+        | some (n, j) => .obj [("txt", .arr ((paths.take n).map Json.str)),
+                               ("json", if j then .arr (paths.map Json.str) else .str "intact")]
+      match finish r fun ks => [("pubkeys", .arr (ks.map Json.ofBytes))] with
+      | .obj kvs => some (.obj (kvs ++ [("files", files)]))
+      | j => some j
     | _ => none)
   let ievs ← evsOfJson? (← implOut.get? "events")
   let iok ← (← implOut.get? "ok").asBool?
+  let fileObs (k : String) : Option (List String) := match (implOut.get? "files").bind (·.get? k) with
+    | some (.arr xs) => some (xs.filterMap Json.asStr?)
+    | _ => none
+  -- a genuine device answers GET_PUBLIC_KEY with points of the curve (python-ecdsa's reading, an input)
+  let normTable : List (Bytes × Bool) := match input.get? "key_norm" with
+    | some (.obj kvs) => kvs.filterMap fun (k, v) => (Bytes.ofHex? k).map fun kb => (kb, v.asBytes?.isSome)
+    | _ => []
+  let genuineKeys : Bool := (Spec.C09.pairs (apdus ievs) w.script).all fun (a, r) =>
+    match r with
+    | .data b => Spec.C09.cmdOf a != 0x04 || ((normTable.find? (·.1 == b)).map (·.2)).getD true
+    | _ => true
   let ok := Spec.C18.c18 cmd o.anyPin (if cmd == "changepin" then o.newPin.isSome else o.pin.isSome) w.seed
-    w.stdinLines w.script { events := ievs, ok := iok }
+    w.stdinLines w.script { events := ievs, ok := iok } &&
+    (cmd != "pubkeys" || !genuineKeys || Spec.C18.filesOk o.hasOutput iok (fileObs "txt") (fileObs "json"))
   pure (model, ok)
 
 /-- C12: the device log of a run of the real server under concurrent clients.  `clients` are
